@@ -56,6 +56,7 @@ class Server:
             "method": request.method,
             "path": urllib.parse.unquote(url.raw_path.split(b"?", 1)[0].decode("ascii")),
             "raw_target": url.raw_path.decode("ascii"),
+            "raw_path": url.raw_path.split(b"?", 1)[0].decode("ascii"),
             "query": urllib.parse.parse_qsl(url.query.decode("ascii"), keep_blank_values=True),
             "headers": headers,
             "dup_headers": dup,
